@@ -1368,8 +1368,15 @@ mod mt {
                 }
             });
             // functions: constants, variables of a subset, arithmetic
+            // (every 7th manager holds one constant function only: a single terminal)
+            let single = c % 7 == 3;
             let built = catch(|| {
                 let mut fs: Vec<MT> = Vec::new();
+                if single {
+                    let cst = CONSTS[rng.below(CONSTS.len())];
+                    fs.push(mref.with_manager_shared(|m| MT::constant(m, cst).unwrap()));
+                    return fs;
+                }
                 mref.with_manager_shared(|m| {
                     for k in 0..(2 + rng.below(3)) {
                         let cst = CONSTS[(k + rng.below(CONSTS.len())) % CONSTS.len()];
